@@ -125,6 +125,10 @@ func decodeTok(tok json.Token, dec *json.Decoder, t vtree.Tree, path string) str
 	return ""
 }
 
+// the document of the previous case and a copy of its content
+var prevDoc []byte
+var prevCopy string
+
 func check(c Case) string {
 	v := c.Tree.Impl()
 	out, err, pan := exportJSON(v)
@@ -134,6 +138,11 @@ func check(c Case) string {
 	if err != nil {
 		return "the JSON export fails: " + err.Error()
 	}
+	// a document that was returned stays what it was when further documents are exported
+	if prevDoc != nil && string(prevDoc) != prevCopy {
+		return fmt.Sprintf("the document returned by the PREVIOUS export changed while this value was exported: it was %q, now it is %q", prevCopy, prevDoc)
+	}
+	prevDoc, prevCopy = out, string(out)
 	// exporting does not consume or change the value: the second export is the first
 	if again, err2, pan2 := exportJSON(v); pan2 != "" || err2 != nil || !bytes.Equal(out, again) {
 		return fmt.Sprintf("the second export of the same value differs: %q, then %q (%v %s)", out, again, err2, pan2)
